@@ -29,7 +29,7 @@ func init() {
 			"resolution 0 (alias of 960), resolutions above 32767 (clamped) and more than 65535 tracks are outside the stated domain",
 			"messages are non-empty smf.Message values: channel messages, FF type VLQ payload metas in canonical form, F0/F7 sysex and escape messages",
 		},
-		Require: []string{"bank_reads", "histories", "smpte_files", "rs_elisions_by_writer", "delta_ge_2^28", "early_close", "add_after_close", "variadic_add", "unclosed_tracks", "events_compared", "norunningstatus_files", "file_roundtrips", "read_modify_write_values", "concurrent_roundtrips", "vlq_width_combinations"},
+		Require: []string{"bank_reads", "dumps_among_notes", "histories", "smpte_files", "rs_elisions_by_writer", "delta_ge_2^28", "early_close", "add_after_close", "variadic_add", "unclosed_tracks", "events_compared", "norunningstatus_files", "file_roundtrips", "read_modify_write_values", "concurrent_roundtrips", "vlq_width_combinations"},
 		Run:     runC01,
 	})
 }
@@ -442,6 +442,61 @@ func runC01(c *mon.Ctx) {
 			a.log("delta %d (VLQ of %d bytes) x payload of %d bytes (length VLQ of %d bytes), NoRunningStatus=%v", d, ref.VLQLen(d), n, ref.VLQLen(uint32(n)), nors)
 			c01Check(c, a, "vlq width product")
 			c.Count("vlq_width_combinations", 1)
+		}
+	})
+
+	// position inside the track: a payload above the chunked-read threshold at the start, in the middle or as the
+	// last event of a track, before / behind runs of channel messages that the writer compresses with running
+	// status (the bytes a track takes in the file then differ from the sum of its message lengths)
+	dumpLens := []int{4097, 5000, 16384, 70_000, 1 << 20}
+	c.Each("dump-among-notes", int64(len(dumpLens)*6), func(i int64, r *mon.Rand) {
+		n := dumpLens[int(i)%len(dumpLens)]
+		pos := int(i) / len(dumpLens) % 3 // 0 first, 1 middle, 2 last
+		kind := int(i) / len(dumpLens) / 3
+		p := r.Bytes7(n)
+		var dump []byte
+		switch kind {
+		case 0:
+			dump = append(append([]byte{0xF0}, p...), 0xF7)
+		default:
+			dump = ref.Meta(byte(r.Pick(0x01, 0x7F)), p)
+		}
+		for _, nors := range []bool{false, true} {
+			a := &apiValue{s: smf.NewSMF1(), sh: &ref.File{Format: 1, Division: 960}}
+			a.s.NoRunningStatus = nors
+			for t := 0; t < 2; t++ {
+				var tr smf.Track
+				var sh []ref.Ev
+				add := func(d uint32, m []byte) {
+					tr.Add(d, m)
+					sh = append(sh, ref.Ev{Delta: d, Msg: append([]byte(nil), m...)})
+				}
+				notes := func(k int) {
+					for j := 0; j < k; j++ {
+						add(uint32(j%3), c01Arena.put([]byte{0x90 | byte(t), byte(j & 127), byte(1 + j%100)}))
+					}
+				}
+				nn := r.Pick(9, 10, 11, 24, 40, 200)
+				switch pos {
+				case 0:
+					add(0, c01Arena.put(dump))
+					notes(nn)
+				case 1:
+					notes(nn)
+					add(1, c01Arena.put(dump))
+					notes(nn)
+				default:
+					notes(nn)
+					add(1, c01Arena.put(dump))
+				}
+				tr.Close(0)
+				sh = append(sh, ref.Ev{Delta: 0, Msg: ref.EOT})
+				a.s.Add(tr)
+				a.sh.Tracks = append(a.sh.Tracks, sh)
+			}
+			a.log("payload of %d bytes %s in both tracks, runs of same-status notes around it, NoRunningStatus=%v", n, []string{"first", "in the middle", "last"}[pos], nors)
+			c01Check(c, a, "dump among notes")
+			c.Count("dumps_among_notes", 1)
 		}
 	})
 
